@@ -49,8 +49,10 @@ def build_doc(rng):
         if kind != "none":
             refs += '<Reference ReferenceType="i=46">ns=1;i=%d</Reference>' % prop_id
         from xml.sax.saxutils import escape, quoteattr
+        # the enumeration's name is its BrowseName; the DisplayName is a different text in a third of the cases
+        shown = name if rng.random() < 0.65 else "shown as " + name
         out.append('<UADataType NodeId="ns=1;i=%d" BrowseName=%s><DisplayName>%s</DisplayName><References>%s</References></UADataType>'
-                   % (dt_id, quoteattr("1:" + name), escape(name), refs))
+                   % (dt_id, quoteattr("1:" + name), escape(shown), refs))
         if kind == "strings":
             items = "".join('<LocalizedText><Locale>en</Locale><Text>%s</Text></LocalizedText>' % escape(t) for t in texts)
             out.append('<UAVariable NodeId="ns=1;i=%d" BrowseName="EnumStrings" DataType="i=21" ValueRank="1"><DisplayName>EnumStrings</DisplayName>'
